@@ -53,12 +53,21 @@ def parse_roles(prog, parv):
             continue
         stores.setdefault(fl[0]["n"], []).append((b, st))
         e = expr_of_operand(parv, st["rv"]["x"]) if st["rv"]["k"] == "use" else (E("agg", None, None, [expr_of_operand(parv, o) for o in st["rv"].get("ops", [])]) if st["rv"]["k"] == "agg" else None)
-        for c in atoms_of(e) if e is not None else ():
-            if c.name == "strip_prefix" and len(c.args) == 2:
+        # the stored value derives from the segment stripped of exactly one of the prefixes
+        srcs = set()
+        for o in ([st["rv"].get("x")] if st["rv"].get("x") else []) + list(st["rv"].get("ops", [])):
+            if o:
+                srcs |= operand_locals(o)
+        back = parv.backward_slice(srcs) if srcs else set()
+        hits = set()
+        for c in parv.calls():
+            if c.name == "strip_prefix" and len(c.args) == 2 and c.dest["l"] in back:
                 lit = call_arg_exprs(c)[1]
                 r_ = PREFIX_ROLE.get(lit.c if lit.k == "const" else None)
                 if r_:
-                    roles.setdefault(r_, fl[0]["n"])
+                    hits.add(r_)
+        if len(hits) == 1:
+            roles.setdefault(hits.pop(), fl[0]["n"])
     if len(vecs) == 2:
         se = some_edges(parv)
         for a_, b_ in ((vecs[0], vecs[1]), (vecs[1], vecs[0])):
